@@ -63,7 +63,7 @@ inductive Op where
   | setCurrent (m : Nat)
   | removeManifest (m : Nat)
   | noop
-  deriving Repr
+  deriving Repr, Inhabited
 
 def apply (d : Disk) : Op → Disk
   | .appendWal n b => { d with wals := update d.wals n ((lookup d.wals n).getD [] ++ [b]) }
